@@ -229,7 +229,7 @@ Ltac decide_tests c :=
   end.
 
 Lemma run_step_to s idx pb c r acc s1 stk' acc' s2 acc2 :
-  (forall k, dispatch c r k (s_step s) s = ROk s1) -> s_back s1 = false -> s_skip s1 = false ->
+  (forall k, dispatch c r pb k (s_step s) s = ROk s1) -> s_back s1 = false -> s_skip s1 = false ->
   process_finds idx pb (s_htc s1) (s_stk s1) (frev (s_finds s1)) acc = (stk', acc', true) ->
   s2 = set_back false (set_finds [] (set_stk stk' s1)) -> acc2 = acc' ->
   run s idx pb (c :: r) acc = run s2 (N.succ idx) (Some c) r acc2.
@@ -253,9 +253,10 @@ Definition Cfg (fp : st -> Prop) (rts : list st) (stk : list (ev * N)) (n : nat)
   exists f pcs cx bnd al, fp f /\ length pcs = n /\
     s = mksc f rts stk pcs cx [] ANone u false bnd al false false false.
 
+(* the state reached may depend on the byte before the first one (fix 542fa4b: the LF of a CRLF) *)
 Definition Tr (P : sc -> Prop) (idx : N) (bs : bytes) (evs : list lexev) (Q : sc -> Prop) : Prop :=
-  forall s, P s -> exists s', Q s' /\
-    forall pb rest acc, exists pb', run s idx pb (bs ++ rest) acc = run s' (idx + len bs) pb' rest (rev evs ++ acc).
+  forall s, P s -> forall pb rest acc, exists s' pb', Q s' /\
+    run s idx pb (bs ++ rest) acc = run s' (idx + len bs) pb' rest (rev evs ++ acc).
 
 Lemma len_app a b : len (a ++ b) = len a + len b.
 Proof. unfold len. rewrite app_length. lia. Qed.
@@ -266,17 +267,18 @@ Proof. reflexivity. Qed.
 
 Lemma Tr_nil (P Q : sc -> Prop) idx : (forall s, P s -> Q s) -> Tr P idx [] [] Q.
 Proof.
-  intros H s Hs. exists s. split; [apply H; exact Hs|]. intros pb rest acc. exists pb.
+  intros H s Hs pb rest acc. exists s, pb. split; [apply H; exact Hs|].
   rewrite len_nil, N.add_0_r. reflexivity.
 Qed.
 
 Lemma Tr_trans P Q R i a b e1 e2 j :
   Tr P i a e1 Q -> j = i + len a -> Tr Q j b e2 R -> Tr P i (a ++ b) (e1 ++ e2) R.
 Proof.
-  intros H1 -> H2 s Hs. destruct (H1 s Hs) as [s1 [Hq K1]]. destruct (H2 s1 Hq) as [s2 [Hr K2]].
-  exists s2. split; [exact Hr|]. intros pb rest acc.
-  destruct (K1 pb (b ++ rest) acc) as [pb1 E1]. destruct (K2 pb1 rest (rev e1 ++ acc)) as [pb2 E2].
-  exists pb2. rewrite <- app_assoc, E1, E2, len_app, N.add_assoc, rev_app_distr, <- app_assoc. reflexivity.
+  intros H1 -> H2 s Hs pb rest acc.
+  destruct (H1 s Hs pb (b ++ rest) acc) as [s1 [pb1 [Hq E1]]].
+  destruct (H2 s1 Hq pb1 rest (rev e1 ++ acc)) as [s2 [pb2 [Hr E2]]].
+  exists s2, pb2. split; [exact Hr|].
+  rewrite <- app_assoc, E1, E2, len_app, N.add_assoc, rev_app_distr, <- app_assoc. reflexivity.
 Qed.
 
 Lemma Tr_conv P Q i bs bs' evs evs' : Tr P i bs evs Q -> bs = bs' -> evs = evs' -> Tr P i bs' evs' Q.
@@ -285,7 +287,8 @@ Proof. intros H -> ->. exact H. Qed.
 Lemma Tr_weaken (P P' Q Q' : sc -> Prop) i bs evs :
   Tr P i bs evs Q -> (forall s, P' s -> P s) -> (forall s, Q s -> Q' s) -> Tr P' i bs evs Q'.
 Proof.
-  intros H HP HQ s Hs. destruct (H s (HP s Hs)) as [s' [Hq K]]. exists s'. split; [apply HQ; exact Hq|exact K].
+  intros H HP HQ s Hs pb rest acc. destruct (H s (HP s Hs) pb rest acc) as [s' [pb' [Hq K]]].
+  exists s', pb'. split; [apply HQ; exact Hq|exact K].
 Qed.
 
 Lemma Tr_one (P Q : sc -> Prop) idx c evs :
@@ -293,8 +296,17 @@ Lemma Tr_one (P Q : sc -> Prop) idx c evs :
      forall pb r acc, run s idx pb (c :: r) acc = run s' (N.succ idx) (Some c) r (rev evs ++ acc)) ->
   Tr P idx [c] evs Q.
 Proof.
-  intros H s Hs. destruct (H s Hs) as [s' [Hq K]]. exists s'. split; [exact Hq|].
-  intros pb rest acc. exists (Some c). cbn [app]. rewrite K, len_cons, len_nil. f_equal. lia.
+  intros H s Hs pb rest acc. destruct (H s Hs) as [s' [Hq K]]. exists s', (Some c). split; [exact Hq|].
+  cbn [app]. rewrite K, len_cons, len_nil. f_equal. lia.
+Qed.
+(* the same when the state reached depends on the byte before *)
+Lemma Tr_one_pb (P Q : sc -> Prop) idx c evs :
+  (forall s, P s -> forall pb r acc, exists s', Q s' /\
+     run s idx pb (c :: r) acc = run s' (N.succ idx) (Some c) r (rev evs ++ acc)) ->
+  Tr P idx [c] evs Q.
+Proof.
+  intros H s Hs pb rest acc. destruct (H s Hs pb rest acc) as [s' [Hq K]]. exists s', (Some c).
+  split; [exact Hq|]. cbn [app]. rewrite K, len_cons, len_nil. f_equal. lia.
 Qed.
 
 Ltac cfg_solve :=
@@ -345,13 +357,17 @@ Definition after_blank (f : st) (c : byte) : st :=
 
 Lemma T_blank1 f c idx stk n :
   waiting f = true -> is_blank c = true ->
-  Tr (Cfg (eq f) [] stk n false) idx [c] (nl1 idx c) (Cfg (eq (after_blank f c)) [] stk n false).
+  Tr (Cfg (eq f) [] stk n false) idx [c] (nl1 idx c)
+     (Cfg (fun g => g = f \/ g = after_blank f c) [] stk n false).
 Proof.
-  intros Hw Hb. apply Tr_one. intros s [f0 [pcs [cx [bnd [al [Hf [Hn ->]]]]]]]. subst f0.
+  intros Hw Hb. apply Tr_one_pb. intros s [f0 [pcs [cx [bnd [al [Hf [Hn ->]]]]]]] pb r acc. subst f0.
   unfold nl1, after_blank.
   destruct f; try discriminate Hw;
     (destruct (is_nl c) eqn:Hnl;
-     (eexists; split; cycle 1; [intros pb r acc; step_tac c|cfg_solve])).
+     first [ solve [eexists; split; cycle 1; [step_tac c|cfg_solve]]
+           | (* the LF of a CRLF keeps the step (fix 542fa4b) *)
+             destruct (ch c 10) eqn:E10; [destruct pb as [x|]; [destruct (ch x 13) eqn:E13|]|];
+             (eexists; split; cycle 1; [step_tac c|cfg_solve]) ]).
 Qed.
 
 Lemma Tr_class (fp : st -> Prop) rts stk n u idx bs evs Q :
@@ -381,7 +397,7 @@ Proof.
     eapply Tr_trans; [| |apply IH; exact Hw'].
     + apply Tr_class. intros f Hf. destruct (Hcl f Hf) as [Hwt Hab].
       eapply Tr_weaken; [apply T_blank1; [exact Hwt|exact Hc]|intros ? HH; exact HH|].
-      intros s Hs. eapply Cfg_sub; [|exact Hs]. intros f0 <-. apply Hab.
+      intros s Hs. eapply Cfg_sub; [|exact Hs]. intros f0 [->| ->]; [exact Hf|apply Hab].
     + rewrite len_cons, len_nil. lia.
 Qed.
 
@@ -1195,8 +1211,8 @@ Lemma scan_closed bs evs (fp : st -> Prop) n u :
   (forall f, fp f -> unfinished_step f = false) ->
   Tr (Cfg (vs_fp VRoot) [] [] 0 false) 0 bs evs (Cfg fp [] [] n u) -> scan false bs = (evs, Done).
 Proof.
-  intros Hu H. destruct (H _ cfg_new) as [s' [[f [pcs [cx [bnd [al [Hf [Hn ->]]]]]]] K]].
-  destruct (K None [] []) as [pb' E1]. rewrite app_nil_r in E1. unfold scan. rewrite E1.
+  intros Hu H. destruct (H _ cfg_new None [] []) as [s' [pb' [[f [pcs [cx [bnd [al [Hf [Hn ->]]]]]]] E1]]].
+  rewrite app_nil_r in E1. unfold scan. rewrite E1.
   cbn [run s_stk s_step length tail]. rewrite (Hu f Hf). rewrite app_nil_r, frev_rev, rev_involutive. reflexivity.
 Qed.
 Lemma scan_open_lit bs evs (fp : st -> Prop) p n :
@@ -1204,8 +1220,8 @@ Lemma scan_open_lit bs evs (fp : st -> Prop) p n :
   Tr (Cfg (vs_fp VRoot) [] [] 0 false) 0 bs evs (Cfg fp [] [(LiteralBegin, p)] n false) ->
   scan false bs = (evs ++ [E LiteralEnd p (len bs - 1)], Done).
 Proof.
-  intros Hu H. destruct (H _ cfg_new) as [s' [[f [pcs [cx [bnd [al [Hf [Hn ->]]]]]]] K]].
-  destruct (K None [] []) as [pb' E1]. rewrite app_nil_r in E1. unfold scan. rewrite E1.
+  intros Hu H. destruct (H _ cfg_new None [] []) as [s' [pb' [[f [pcs [cx [bnd [al [Hf [Hn ->]]]]]]] E1]]].
+  rewrite app_nil_r in E1. unfold scan. rewrite E1.
   cbn [run s_stk length tail]. cbn. rewrite (Hu f Hf). cbv beta iota. rewrite app_nil_r.
   change (N.of_nat (length bs)) with (len bs).
   rewrite frev_rev. cbn [rev]. rewrite rev_involutive. reflexivity.
